@@ -2,6 +2,7 @@
  * License, v. 2.0. If a copy of the MPL was not distributed with this
  * file, You can obtain one at http://mozilla.org/MPL/2.0/. */
 use crate::assembly::{Instr, Line, Reg};
+use crate::translate_bytecode::ConstantsHolder;
 use crate::vm::AbraInt;
 
 pub(crate) fn optimize(lines: Vec<Line>) -> Vec<Line> {
@@ -50,6 +51,44 @@ fn optimization_pass(lines: Vec<Line>) -> Vec<Line> {
         index += 1;
     }
 
+    ret
+}
+
+/// An immediate operand is encoded as a 16-bit index into the constant pool. Immediate-operand
+/// instructions whose constant does not get such an index are turned back into a push of the
+/// constant, whose index has 32 bits, followed by the plain instruction.
+pub(crate) fn expand_immediates(lines: Vec<Line>, constants: &ConstantsHolder) -> Vec<Line> {
+    let fits = |push: &Instr| {
+        let index = match push {
+            Instr::PushInt(imm) => constants.int_constants.try_get_id(imm),
+            Instr::PushFloat(imm) => constants.float_constants.try_get_id(imm),
+            _ => None,
+        };
+        index.is_some_and(|index| index <= u16::MAX as u32)
+    };
+    let mut ret = Vec::with_capacity(lines.len());
+    for line in lines {
+        if let Line::Instr {
+            instr,
+            lineno,
+            file_id,
+            func_id,
+        } = &line
+            && let Some((push, plain)) = instr.clone().without_imm()
+            && !fits(&push)
+        {
+            for instr in [push, plain] {
+                ret.push(Line::Instr {
+                    instr,
+                    lineno: *lineno,
+                    file_id: *file_id,
+                    func_id: *func_id,
+                });
+            }
+        } else {
+            ret.push(line);
+        }
+    }
     ret
 }
 
@@ -863,6 +902,53 @@ impl Instr {
             Instr::EqualInt(dest, r1, _) => Instr::EqualIntImm(dest, r1, imm),
             Instr::ArrayPush(r1, _) => Instr::ArrayPushIntImm(r1, imm),
             _ => panic!("can't replace second arg with immediate"),
+        }
+    }
+
+    // the inverse of the above: the push of the immediate operand and the instruction that takes
+    // its second argument from the top of the stack
+    fn without_imm(self) -> Option<(Instr, Instr)> {
+        let int = |imm: AbraInt, instr: Instr| Some((Instr::PushInt(imm), instr));
+        let float = |imm: String, instr: Instr| Some((Instr::PushFloat(imm), instr));
+        match self {
+            Instr::StoreOffsetImm(n, imm) => int(imm, Instr::StoreOffset(n)),
+            Instr::AddIntImm(d, r1, imm) => int(imm, Instr::AddInt(d, r1, Reg::Top)),
+            Instr::SubIntImm(d, r1, imm) => int(imm, Instr::SubInt(d, r1, Reg::Top)),
+            Instr::MulIntImm(d, r1, imm) => int(imm, Instr::MulInt(d, r1, Reg::Top)),
+            Instr::DivIntImm(d, r1, imm) => int(imm, Instr::DivInt(d, r1, Reg::Top)),
+            Instr::PowIntImm(d, r1, imm) => int(imm, Instr::PowInt(d, r1, Reg::Top)),
+            Instr::ModuloImm(d, r1, imm) => int(imm, Instr::Modulo(d, r1, Reg::Top)),
+            Instr::LessThanIntImm(d, r1, imm) => int(imm, Instr::LessThanInt(d, r1, Reg::Top)),
+            Instr::LessThanOrEqualIntImm(d, r1, imm) => {
+                int(imm, Instr::LessThanOrEqualInt(d, r1, Reg::Top))
+            }
+            Instr::GreaterThanIntImm(d, r1, imm) => {
+                int(imm, Instr::GreaterThanInt(d, r1, Reg::Top))
+            }
+            Instr::GreaterThanOrEqualIntImm(d, r1, imm) => {
+                int(imm, Instr::GreaterThanOrEqualInt(d, r1, Reg::Top))
+            }
+            Instr::EqualIntImm(d, r1, imm) => int(imm, Instr::EqualInt(d, r1, Reg::Top)),
+            Instr::ArrayPushIntImm(r1, imm) => int(imm, Instr::ArrayPush(r1, Reg::Top)),
+            Instr::AddFloatImm(d, r1, imm) => float(imm, Instr::AddFloat(d, r1, Reg::Top)),
+            Instr::SubFloatImm(d, r1, imm) => float(imm, Instr::SubFloat(d, r1, Reg::Top)),
+            Instr::MulFloatImm(d, r1, imm) => float(imm, Instr::MulFloat(d, r1, Reg::Top)),
+            Instr::DivFloatImm(d, r1, imm) => float(imm, Instr::DivFloat(d, r1, Reg::Top)),
+            Instr::PowFloatImm(d, r1, imm) => float(imm, Instr::PowFloat(d, r1, Reg::Top)),
+            Instr::LessThanFloatImm(d, r1, imm) => {
+                float(imm, Instr::LessThanFloat(d, r1, Reg::Top))
+            }
+            Instr::LessThanOrEqualFloatImm(d, r1, imm) => {
+                float(imm, Instr::LessThanOrEqualFloat(d, r1, Reg::Top))
+            }
+            Instr::GreaterThanFloatImm(d, r1, imm) => {
+                float(imm, Instr::GreaterThanFloat(d, r1, Reg::Top))
+            }
+            Instr::GreaterThanOrEqualFloatImm(d, r1, imm) => {
+                float(imm, Instr::GreaterThanOrEqualFloat(d, r1, Reg::Top))
+            }
+            Instr::EqualFloatImm(d, r1, imm) => float(imm, Instr::EqualFloat(d, r1, Reg::Top)),
+            _ => None,
         }
     }
 
